@@ -20,6 +20,70 @@ use grafeo_core::index::{BTreeIndex, HashIndex};
 use gv_harness::*;
 
 // ------------------------------------------------------------------------------------------
+// output: passing cases of the same kind are written `batch` at a time as one case whose Coq
+// term is the conjunction (each coqc shard pays a fixed start-up cost per case file); failing
+// cases (oracle = fail) are always written alone so that they are classified one by one.
+// `--batch 1` switches batching off (use it to localise a correspondence mismatch).
+struct Sink {
+    out: Out,
+    batch: usize,
+    bufs: BTreeMap<String, Vec<Case>>,
+}
+impl Sink {
+    fn emit(&mut self, c: &Case) {
+        let mut c = c.clone();
+        c.tags.push(format!("obs:{}", c.kind));
+        let c = &c;
+        if self.batch <= 1 || c.oracle == Oracle::Fail || c.coq.is_none() {
+            self.out.emit(c);
+            return;
+        }
+        let full = {
+            let b = self.bufs.entry(c.kind.clone()).or_default();
+            b.push(c.clone());
+            b.len() >= self.batch
+        };
+        if full {
+            self.flush_kind(&c.kind.clone());
+        }
+    }
+    fn flush_kind(&mut self, kind: &str) {
+        let Some(b) = self.bufs.remove(kind) else { return };
+        if b.is_empty() {
+            return;
+        }
+        if b.len() == 1 {
+            self.out.emit(&b[0]);
+            return;
+        }
+        let clip = |s: &str| -> String { s.chars().take(400).collect() };
+        let mut tags = Vec::new();
+        for c in &b {
+            tags.extend(c.tags.iter().cloned());
+        }
+        tags.push(format!("batched:{}", kind));
+        self.out.emit(&Case {
+            kind: kind.to_string(),
+            input: b.iter().map(|c| clip(&c.input)).collect::<Vec<_>>().join(" ;; "),
+            coq: Some(b.iter().map(|c| format!("({})", c.coq.as_ref().unwrap())).collect::<Vec<_>>().join(" && ")),
+            show: None,
+            oracle: if b.iter().all(|c| c.oracle == Oracle::Na) { Oracle::Na } else { Oracle::Ok },
+            nontrivial: b.iter().any(|c| c.nontrivial),
+            imp: b.iter().map(|c| clip(&c.imp)).collect::<Vec<_>>().join(" ;; "),
+            tags,
+            ..Default::default()
+        });
+    }
+    fn finish(mut self) {
+        let kinds: Vec<String> = self.bufs.keys().cloned().collect();
+        for k in kinds {
+            self.flush_kind(&k);
+        }
+        self.out.finish();
+    }
+}
+
+// ------------------------------------------------------------------------------------------
 // recording hasher: every write_* call with its width and payload, as a Coq `hword`
 // (write_str / write_length_prefix are unstable and cannot be overridden: their defaults
 //  show up as write + write_u8(0xff) and write_usize)
@@ -511,7 +575,7 @@ fn mutate_value(r: &mut Rng, v: &Value) -> Value {
 
 // ------------------------------------------------------------------------------------------
 // floats
-fn case_f64_pair(a: u64, b: u64, out: &mut Out) {
+fn case_f64_pair(a: u64, b: u64, out: &mut Sink) {
     let (x, y) = (f64::from_bits(a), f64::from_bits(b));
     let pc = x.partial_cmp(&y);
     // the IEEE laws on the implementation: == is symmetric, < is asymmetric, partial_cmp agrees with both
@@ -550,7 +614,7 @@ fn fclass(a: u64) -> &'static str {
         "normal"
     }
 }
-fn case_f64_class(a: u64, out: &mut Out) {
+fn case_f64_class(a: u64, out: &mut Sink) {
     let x = f64::from_bits(a);
     out.emit(&Case {
         kind: "f64_class".into(),
@@ -571,7 +635,7 @@ fn case_f64_class(a: u64, out: &mut Out) {
         ..Default::default()
     });
 }
-fn case_f32(a: u32, b: u32, out: &mut Out) {
+fn case_f32(a: u32, b: u32, out: &mut Sink) {
     let (x, y) = (f32::from_bits(a), f32::from_bits(b));
     out.emit(&Case {
         kind: "f32_pair".into(),
@@ -594,7 +658,7 @@ fn case_f32(a: u32, b: u32, out: &mut Out) {
         ..Default::default()
     });
 }
-fn case_of_i64(i: i64, out: &mut Out) {
+fn case_of_i64(i: i64, out: &mut Sink) {
     let f = i as f64;
     // oracle: the conversion is monotone w.r.t. its neighbours and exact below 2^53
     let ok = (i == i64::MIN || ((i - 1) as f64) <= f) && (i == i64::MAX || f <= ((i + 1) as f64)) && (i.unsigned_abs() > (1 << 53) || f as i64 == i);
@@ -616,7 +680,7 @@ fn case_of_i64(i: i64, out: &mut Out) {
 fn bc<T: serde::Serialize>(t: &T) -> Vec<u8> {
     bincode::serde::encode_to_vec(t, bincode::config::standard()).expect("bincode encode")
 }
-fn case_bc_prims(r: &mut Rng, out: &mut Out) {
+fn case_bc_prims(r: &mut Rng, out: &mut Sink) {
     let u: u64 = match r.below(4) {
         0 => *r.pick(&[0u64, 1, 250, 251, 252, 255, 256, 65535, 65536, (1 << 32) - 1, 1 << 32, u64::MAX, 1 << 63]),
         1 => r.below(70000),
@@ -688,7 +752,7 @@ fn vtags(v: &Value, extra: &str) -> Vec<String> {
 fn nontrivial_value(v: &Value) -> bool {
     !matches!(v, Value::Null | Value::Bool(_))
 }
-fn case_value(v: &Value, src: &str, out: &mut Out) {
+fn case_value(v: &Value, src: &str, out: &mut Sink) {
     // hash feed
     let feed = feed_of(&HashableValue::new(v.clone()));
     out.emit(&Case {
@@ -762,7 +826,7 @@ fn case_value(v: &Value, src: &str, out: &mut Out) {
     });
 }
 
-fn case_bincode_mut(r: &mut Rng, v: &Value, out: &mut Out) {
+fn case_bincode_mut(r: &mut Rng, v: &Value, out: &mut Sink) {
     let mut bs = bc(v);
     let how = match r.below(6) {
         0 => {
@@ -813,7 +877,7 @@ fn case_bincode_mut(r: &mut Rng, v: &Value, out: &mut Out) {
     });
 }
 
-fn case_spill_mut(r: &mut Rng, v: &Value, out: &mut Out) {
+fn case_spill_mut(r: &mut Rng, v: &Value, out: &mut Sink) {
     // only mutations that keep every length field genuine (the reader allocates `len` bytes
     // before reading): truncation, and non-canonical bool bytes
     let mut sb = Vec::new();
@@ -845,7 +909,7 @@ fn case_spill_mut(r: &mut Rng, v: &Value, out: &mut Out) {
     });
 }
 
-fn case_spill_row(r: &mut Rng, out: &mut Out) {
+fn case_spill_row(r: &mut Rng, out: &mut Sink) {
     let n = r.below(5) as usize;
     let row: Vec<Value> = (0..n).map(|_| gen_value(r, 2)).collect();
     let mut sb = Vec::new();
@@ -912,7 +976,7 @@ fn pair_nontrivial(a: &Value, b: &Value) -> bool {
     }
     variant(a) != variant(b) || boundary(a) || boundary(b)
 }
-fn case_pair(a: &Value, b: &Value, src: &str, out: &mut Out) {
+fn case_pair(a: &Value, b: &Value, src: &str, out: &mut Sink) {
     let (ab, ba, aa, bb) = (observe_pair(a, b), observe_pair(b, a), observe_pair(a, a), observe_pair(b, b));
     let (fa, fb) = (feed_of(&HashableValue::new(a.clone())), feed_of(&HashableValue::new(b.clone())));
     // HashableValue laws on the implementation
@@ -935,13 +999,13 @@ fn case_pair(a: &Value, b: &Value, src: &str, out: &mut Out) {
         kind: "pair".into(),
         input: format!("{:?} | {:?}", a, b),
         coq: Some(format!(
-            "chk_pair {a} {b} {} && chk_pair {b} {a} {} && chk_pair_laws {a} {b} {} {}",
+            "chk_pair2 {} {} {} {} {} {}",
+            cv(a),
+            cv(b),
             coq_pairobs(&ab),
             coq_pairobs(&ba),
             coq::b(h_ok),
-            coq::opt(olaws.map(|(p, h)| format!("({}, {})", coq::b(p), coq::b(h)))),
-            a = cv(a),
-            b = cv(b)
+            coq::opt(olaws.map(|(p, h)| format!("({}, {})", coq::b(p), coq::b(h))))
         )),
         oracle: Oracle::Ok,
         nontrivial: pair_nontrivial(a, b),
@@ -978,7 +1042,7 @@ fn perms3<T: Clone>(a: &T, b: &T, c: &T) -> [(T, T, T); 6] {
         (c.clone(), b.clone(), a.clone()),
     ]
 }
-fn case_otriple(a: &OrderableValue, b: &OrderableValue, c: &OrderableValue, src: &str, out: &mut Out) {
+fn case_otriple(a: &OrderableValue, b: &OrderableValue, c: &OrderableValue, src: &str, out: &mut Sink) {
     use std::cmp::Ordering::Greater;
     let mut trans_ok = true;
     for (x, y, z) in perms3(a, b, c) {
@@ -1028,7 +1092,7 @@ fn case_otriple(a: &OrderableValue, b: &OrderableValue, c: &OrderableValue, src:
     }
     out.emit(&cs);
 }
-fn case_htriple(a: &Value, b: &Value, c: &Value, out: &mut Out) {
+fn case_htriple(a: &Value, b: &Value, c: &Value, out: &mut Sink) {
     let h = |x: &Value, y: &Value| HashableValue::new(x.clone()) == HashableValue::new(y.clone());
     let mut ok = true;
     for (x, y, z) in perms3(a, b, c) {
@@ -1088,7 +1152,7 @@ fn group_by(vals: &[Value]) -> Vec<(Value, i64)> {
     }
     res
 }
-fn case_rowkey(a: &Value, b: &Value, out: &mut Out, only_if_interesting: bool) {
+fn case_rowkey(a: &Value, b: &Value, out: &mut Sink, only_if_interesting: bool) {
     let same = bits_eq(a, b);
     let d = distinct_rows(&[a.clone(), b.clone()]);
     let g = group_by(&[a.clone(), b.clone()]);
@@ -1102,7 +1166,7 @@ fn case_rowkey(a: &Value, b: &Value, out: &mut Out, only_if_interesting: bool) {
     let mut c = Case {
         kind: "rowkey".into(),
         input: format!("{:?} | {:?}", a, b),
-        coq: Some(format!("chk_rowkey {} {} {} && chk_rowkey {} {} {}", cv(a), cv(b), coq::b(merged), cv(a), cv(b), coq::b(gmerged))),
+        coq: Some(format!("chk_rowkey2 {} {} {} {}", cv(a), cv(b), coq::b(merged), coq::b(gmerged))),
         oracle: Oracle::Ok,
         nontrivial: variant(a) != variant(b) || !simple(a),
         imp: format!("distinct_rows={} groups={:?}", d, g),
@@ -1113,11 +1177,11 @@ fn case_rowkey(a: &Value, b: &Value, out: &mut Out, only_if_interesting: bool) {
         c.oracle = Oracle::Fail;
         c.msg = format!("DISTINCT / GROUP BY {} two values that are {} (distinct rows {}, groups {})", if merged || gmerged { "merge" } else { "separate" }, if same { "identical" } else { "different" }, d, g.len());
         c.kid = Some("C16-K3".into());
-        c.kcoq = Some(format!("k_rowkey {} {} && negb (value_eqb {} {})", cv(a), cv(b), cv(a), cv(b)));
+        c.kcoq = Some(format!("k_rowkey_ne {} {}", cv(a), cv(b)));
     }
     out.emit(&c);
 }
-fn case_groupkey(v: &Value, out: &mut Out) {
+fn case_groupkey(v: &Value, out: &mut Sink) {
     // GROUP BY over a single row: the key column of the result must be the key that went in
     let g = group_by(&[v.clone()]);
     let ret = g.first().map(|(k, _)| k.clone()).unwrap_or(Value::Null);
@@ -1140,7 +1204,7 @@ fn case_groupkey(v: &Value, out: &mut Out) {
     }
     out.emit(&c);
 }
-fn case_hash_index(vals: &[Value], out: &mut Out) {
+fn case_hash_index(vals: &[Value], out: &mut Sink) {
     // HashIndex keyed by HashableValue: one entry per bit-level class, every value is found,
     // and it maps to the last inserted member of its class
     let idx: HashIndex<HashableValue, NodeId> = HashIndex::new();
@@ -1179,7 +1243,7 @@ fn case_hash_index(vals: &[Value], out: &mut Out) {
 
 /// the WAL's own use of bincode: log SetNodeProperty records through WalManager, read the file
 /// back frame by frame (payload compared with the model), and recover them with WalRecovery
-fn cases_wal(vals: &[Value], out: &mut Out) {
+fn cases_wal(vals: &[Value], out: &mut Sink) {
     use grafeo_adapters::storage::wal::{WalManager, WalRecord, WalRecovery};
     use grafeo_common::types::TxId;
     let dir = std::path::PathBuf::from(format!("scratch/c16_wal_{}", std::process::id()));
@@ -1233,7 +1297,14 @@ fn cases_wal(vals: &[Value], out: &mut Out) {
 fn main() {
     let a = parse_args();
     quiet_panics();
-    let mut out = Out::create(a.out.as_deref());
+    let mut batch = 4usize;
+    let mut it = a.rest.iter();
+    while let Some(x) = it.next() {
+        if x == "--batch" {
+            batch = it.next().and_then(|v| v.parse().ok()).unwrap_or(4);
+        }
+    }
+    let mut out = Sink { out: Out::create(a.out.as_deref()), batch, bufs: BTreeMap::new() };
     let mut r = Rng::new(a.seed);
     let thorough = a.tier == "thorough";
     let pool = pool();
@@ -1264,7 +1335,7 @@ fn main() {
             case_f32(x, y, &mut out);
         }
     }
-    let nf = if thorough { 4000 } else { 250 };
+    let nf = if thorough { 2500 } else { 250 };
     for _ in 0..nf {
         let (x, y) = (gen_f64_bits(&mut r), gen_f64_bits(&mut r));
         case_f64_pair(x, y, &mut out);
@@ -1322,7 +1393,7 @@ fn main() {
             }
         }
     }
-    let nt = if thorough { 20000 } else { 500 };
+    let nt = if thorough { 10000 } else { 500 };
     for _ in 0..nt {
         let (x, y, z) = (r.pick(&opool).clone(), r.pick(&opool).clone(), r.pick(&opool).clone());
         case_otriple(&x, &y, &z, "pool", &mut out);
